@@ -137,8 +137,8 @@ inductive Described2 : Comp → Bool → Prop
       Described2 (Comp.ofValue name bp (DComp.eopField mn mx (.struct bso shape) (itemsO bso items))) false
   | mux (name : String) (bp : Option Nat) (m : MuxLayout) (ms : List MComp) :
       (∀ x ∈ ms, Described2 x.c x.mid) → Comps.namesOk (MComps.cs ms) → Comps.eopLast (MComps.cs ms) →
-      MComps.midNotLast ms → m.ok (.struct none (Comps.toParams (MComps.cs ms))) →
-      Described2 (Comp.ofValue name bp (DComp.mux m (DComp.struct (MComps.cs ms)))) false
+      m.ok (.struct none (Comps.toParams (MComps.cs ms))) →
+      Described2 (Comp.ofValue name bp (DComp.mux m (DComp.struct (MComps.cs ms)))) (MComps.lastMid ms)
   | endMarkerEop (name : String) (bp : Option Nat) (l : EmLayout) (bso : Option Nat) (shape : List Param)
       (items : List (List MComp)) :
       (∀ k ∈ items, ∀ m ∈ k, Described2 m.c m.mid) → l.ok →
@@ -200,12 +200,12 @@ theorem Described2.ok {g : Comp} {mid : Bool} (h : Described2 g mid) : (∀ P, g
     refine ⟨(hitems c hc).1, (hitems c hc).2, ?_⟩
     obtain ⟨k, hk, rfl⟩ := itemsO_mem hc
     exact (hside k hk).2
-  | mux name bp m ms _ hn hlast hmid hm ih =>
+  | mux name bp m ms _ hn hlast hm ih =>
     have hok := MComps.okAll_of_forall (fun _ => True) ms (fun x hx => (ih x hx).1 _)
     have hend : Comps.endOkAll (MComps.cs ms) := Comps.endOkAll_of_forall _ (fun g hg => by
       obtain ⟨x, hx, rfl⟩ := MComps.mem_cs hg
       exact (ih x hx).2)
-    exact ⟨fun P => (Comp.ofValue_ok name bp _ (DComp.mux_ok m _ (DComp.structM_ok ms hok hn hlast hmid) hm)).toM _ P,
+    exact ⟨fun P => Comp.ofValueM_ok name bp _ _ (DComp.mux_okM m _ _ (DComp.structM_okM ms hok hn hlast) hm) P,
       Comp.ofValue_endOk name bp _ (DComp.mux_endOk m _ (DComp.structM_endOk ms hok hend hlast))⟩
   | endMarkerEop name bp l bso shape items _ hl hside ih =>
     have hitems := structItems2_ok bso shape items ih (fun k hk => (hside k hk).1)
@@ -296,9 +296,9 @@ theorem Described.to2 {g : Comp} (h : Described g) : Described2 g false := by
   | mux name bp m gs _ hn hlast hm ih =>
     have h := Described2.mux name bp m (MComps.ofComps gs)
       (fun x hx => by obtain ⟨g, hg, rfl⟩ := MComps.mem_ofComps hx; exact ih g hg)
-      (by rw [MComps.cs_ofComps]; exact hn) (by rw [MComps.cs_ofComps]; exact hlast) (MComps.midNotLast_ofComps gs)
+      (by rw [MComps.cs_ofComps]; exact hn) (by rw [MComps.cs_ofComps]; exact hlast)
       (by rw [MComps.cs_ofComps]; exact hm)
-    rw [MComps.cs_ofComps] at h
+    rw [show MComps.lastMid (MComps.ofComps gs) = false from MComps.midNotLast_ofComps gs, MComps.cs_ofComps] at h
     exact h
 
 /-! ### the top level: MATCHING-REQUEST-PARAMs -/
